@@ -344,11 +344,12 @@ func populateCalendarObject(co *CalendarObject, h http.Header) error {
 		co.Path = u.Path
 	}
 	if etag := h.Get("ETag"); etag != "" {
-		etag, err := strconv.Unquote(etag)
-		if err != nil {
+		// the same reading as for the getetag property
+		var e internal.ETag
+		if err := e.UnmarshalText([]byte(etag)); err != nil {
 			return err
 		}
-		co.ETag = etag
+		co.ETag = string(e)
 	}
 	if contentLength := h.Get("Content-Length"); contentLength != "" {
 		n, err := strconv.ParseInt(contentLength, 10, 64)
@@ -358,11 +359,12 @@ func populateCalendarObject(co *CalendarObject, h http.Header) error {
 		co.ContentLength = n
 	}
 	if lastModified := h.Get("Last-Modified"); lastModified != "" {
-		t, err := http.ParseTime(lastModified)
-		if err != nil {
+		// the same reading as for the getlastmodified property
+		var t internal.Time
+		if err := t.UnmarshalText([]byte(lastModified)); err != nil {
 			return err
 		}
-		co.ModTime = t
+		co.ModTime = time.Time(t)
 	}
 
 	return nil
